@@ -1,6 +1,6 @@
 (* Proofs/SimJ10.v — HASH records in the PREVIOUS cache, part 10: C01 for the mechanism model
    for previous caches of the class SimJ4.okcH (successful build_file records with a HASH
-   comparison result and recorded HASH reads are admitted), with NO condition on the comparison
+   comparison result and recorded HASH reads are allowed), with NO condition on the comparison
    modes of the program (SimG1.CmpOk is gone; reads: SimG5.QueriesOkP):
      mech_C01_hash                      SimG6.mech_C01_h
      mech_commit_hash, mech_commit_nodirs_hash, mech_fail_hash
